@@ -576,7 +576,7 @@ Lemma w_err_ok req sec : forallb write_ok (w_err req sec) = true. Proof. reflexi
 
 Lemma step_ext_ok s now o : ext_ok s (fst (step pol sw maxd sg s now o)).
 Proof.
-  destruct o as [r x v|r x|r|r x|r x v|r x|r e x l t|r e x|pa c xs l t|d0 r x|pa c|pa c|r x|a b|a b|d]; cbn [step].
+  destruct o as [r x v|r x|r|r x|r x v|r x|r e x l t|r e x|pa c xs l t|d0 r x|pa c|pa c| |r x|a b|a b|d]; cbn [step].
   - (* set *)
     unfold op_set. destruct (has_secret s x).
     + pose proof (check_access_wlog s now r x 2) as Hw.
@@ -665,6 +665,8 @@ Proof.
     + apply ext_ok_log; [apply ext_ok_refl|reflexivity].
   - (* revoke_delegation_cascading *)
     unfold op_revoke_cascade. cbn [fst]. eapply ext_ok_same; [apply ext_ok_refl|reflexivity].
+  - (* restart *)
+    cbn [fst]. eapply ext_ok_same; [apply ext_ok_refl|apply sweep_wlog].
   - (* get_permission *)
     pose proof (get_permission_wlog s now r x) as Hw.
     destruct (get_permission pol sw s now r x) as [s1 pl]. cbn [fst] in *.
